@@ -30,6 +30,9 @@ struct Params {
     mu: f64,
     /// the harness re-quotes by cancelling only its OWN quotes: the agents' limit orders stay
     mut_keep: bool,
+    /// scale of the limit-price distribution (0: 1.0 next to the mid-price, 0.1 for mu = 6); 10 is the
+    /// heavy-tailed setting of the project's documentation: sampled distances often reach past 0 / 2^32-1
+    sigma: f64,
 }
 
 impl Params {
@@ -45,7 +48,7 @@ impl Params {
             scale: self.scale,
             ratio: self.ratio,
             mu: self.mu,
-            sigma: if self.mu == 0.0 { 1.0 } else { 0.1 },
+            sigma: if self.sigma > 0.0 { self.sigma } else if self.mu == 0.0 { 1.0 } else { 0.1 },
         }
     }
 }
@@ -300,12 +303,23 @@ fn mirror(p: &Params, f: &Flow) -> Flow {
                 } else {
                     MAXP
                 }
+            } else if p.sigma >= 5.0 {
+                // heavy-tailed limit prices are clamped at the ends of the axis, which are not mirror
+                // images of each other (0 and 2^32-1): the statement mirrors side, size and step
+                0
             } else {
                 (2 * p.centre as u32 * p.tick) - *price
             };
             (*t, *market, !*bid, np, *vol)
         })
         .collect();
+    out.sort();
+    out
+}
+
+/// the flow as far as the mirror comparison looks at it (limit prices dropped for heavy-tailed settings)
+fn comparable(p: &Params, f: &Flow) -> Flow {
+    let mut out: Flow = f.iter().map(|(t, market, bid, price, vol)| (*t, *market, *bid, if !*market && p.sigma >= 5.0 { 0 } else { *price }, *vol)).collect();
     out.sort();
     out
 }
@@ -345,7 +359,7 @@ pub fn c17(tier: &str) -> i32 {
                             if !t && (multi && tick == 2 && n == 2) {
                                 continue;
                             }
-                            params.push(Params { centre: CENTRE, big_moves: false, multi, tick, n, decay, scale, demand, ratio, mu: 0.0, mut_keep: false });
+                            params.push(Params { centre: CENTRE, big_moves: false, multi, tick, n, decay, scale, demand, ratio, mu: 0.0, mut_keep: false, sigma: 0.0 });
                         }
                     }
                 }
@@ -359,8 +373,19 @@ pub fn c17(tier: &str) -> i32 {
             for decay in [1.0, 0.5] {
                 for (demand, scale) in [(-100.0, 0.5), (100.0, -0.5), (-100.0, -0.5), (-0.6 * n as f64, 10.0)] {
                     for ratio in [0.0, 1.0] {
-                        params.push(Params { centre: CENTRE, big_moves: false, multi, tick: 1, n, decay, scale, demand, ratio, mu: 0.0, mut_keep: false });
+                        params.push(Params { centre: CENTRE, big_moves: false, multi, tick: 1, n, decay, scale, demand, ratio, mu: 0.0, mut_keep: false, sigma: 0.0 });
                     }
+                }
+            }
+        }
+    }
+    // the documentation's heavy-tailed limit-price distribution (sigma 10): sampled prices reach past both
+    // ends of the price axis; a saturated group still places one limit order per trader
+    for multi in [false, true] {
+        for tick in [1u32, 2] {
+            for n in [1u16, 3] {
+                for (demand, ratio) in [(100.0, 1.0), (100.0, 0.5), (100.0, 2.0)] {
+                    params.push(Params { centre: CENTRE, big_moves: false, multi, tick, n, decay: 1.0, scale: 0.5, demand, ratio, mu: 0.0, mut_keep: false, sigma: 10.0 });
                 }
             }
         }
@@ -371,7 +396,7 @@ pub fn c17(tier: &str) -> i32 {
             for decay in [1.0, 0.5] {
                 for (demand, ratio) in [(100.0, 0.0), (100.0, 1.0)] {
                     for big_moves in [false, true] {
-                        params.push(Params { centre: 20_000_011, big_moves, multi, tick: 1, n, decay, scale: 0.5, demand, ratio, mu: 0.0, mut_keep: false });
+                        params.push(Params { centre: 20_000_011, big_moves, multi, tick: 1, n, decay, scale: 0.5, demand, ratio, mu: 0.0, mut_keep: false, sigma: 0.0 });
                     }
                 }
             }
@@ -408,6 +433,8 @@ pub fn c17(tier: &str) -> i32 {
                     (vec![Ans::Raw(0); 12], None),
                     (vec![Ans::Raw(u64::MAX); 12], None),
                     (vec![Ans::Raw(0x7FFF_FFFF_FFFF_FFFF); 12], None),
+                    // every normal draw lands in its far positive tail (limit prices past the ends of the axis)
+                    (vec![Ans::Raw(0xFFFF_FFFF_FFFF_FF00); 12], None),
                 ];
                 if p.ratio == 0.0 {
                     // every combination of {0, just below p, just above p, 1-eps} per trader, for the p of this path
@@ -461,7 +488,7 @@ pub fn c17(tier: &str) -> i32 {
                         }
                         // mirror differential (only meaningful while both mid paths really are mirrored)
                         let mirrored_ok = (0..=r).all(|j| (a.mids[j] + b.mids[j] - 2.0 * (p.centre as f64) * p.tick as f64).abs() < 1e-9);
-                        if mirrored_ok && mirror(p, &a.flows[r]) != b.flows[r] {
+                        if mirrored_ok && mirror(p, &a.flows[r]) != comparable(p, &b.flows[r]) {
                             fails.lock().unwrap().entry("momentum/mirrored-path-not-mirrored-flow".to_string()).or_insert((
                                 format!(
                                     "round {}: on the path {:?} the agents submitted {:?}; on the mirrored path {:?} they submitted {:?} (expected the mirror image {:?})",
@@ -483,7 +510,7 @@ pub fn c17(tier: &str) -> i32 {
     for multi in [false, true] {
         for n in [1u16, 2] {
             for (pname, step) in [("rising", 2i64), ("falling", -2), ("rising by half ticks", 1)] {
-                let p = Params { centre: 5000, big_moves: false, multi, tick: 1, n, decay: 1.0, scale: 0.5, demand: 100.0, ratio: 1.0, mu: 6.0, mut_keep: true };
+                let p = Params { centre: 5000, big_moves: false, multi, tick: 1, n, decay: 1.0, scale: 0.5, demand: 100.0, ratio: 1.0, mu: 6.0, mut_keep: true, sigma: 0.0 };
                 let n_rounds: i64 = if t { 80 } else { 40 };
                 let levels: Vec<i64> = (0..n_rounds).map(|k| 2 * p.centre + step * k).collect();
                 let mirrored: Vec<i64> = (0..n_rounds).map(|k| 2 * p.centre - step * k).collect();
@@ -500,7 +527,7 @@ pub fn c17(tier: &str) -> i32 {
                                     fails.lock().unwrap().entry(format!("momentum/{}", c)).or_insert((format!("long trend ({}), {}", pname, d), replay.clone()));
                                 }
                             }
-                            if mirror(&p, &a.flows[r]) != b.flows[r] {
+                            if mirror(&p, &a.flows[r]) != comparable(&p, &b.flows[r]) {
                                 fails.lock().unwrap().entry("momentum/mirrored-path-not-mirrored-flow".to_string()).or_insert((
                                     format!("long trend ({}), round {}: flow {:?}, on the mirrored path {:?}", pname, r, a.flows[r], b.flows[r]),
                                     replay.clone(),
@@ -544,7 +571,7 @@ pub fn c17(tier: &str) -> i32 {
                         break;
                     }
                     let (multi, pi, perm) = jobs[i];
-                    let p = Params { centre: CENTRE, big_moves: false, multi, tick: 1, n: 1, decay: 1.0, scale: 0.5, demand: 100.0, ratio: 0.0, mu: 0.0, mut_keep: false };
+                    let p = Params { centre: CENTRE, big_moves: false, multi, tick: 1, n: 1, decay: 1.0, scale: 0.5, demand: 100.0, ratio: 0.0, mu: 0.0, mut_keep: false, sigma: 0.0 };
                     let levels: Vec<i64> = all[pi].iter().map(|o| 2 * p.centre + o).collect();
                     rq.fetch_add(1, Ordering::Relaxed);
                     execs.fetch_add(1, Ordering::Relaxed);
